@@ -74,7 +74,8 @@ pub fn available(sim_dir: &Path, target: &Path) -> Result<(), String> {
     std::fs::create_dir_all(target).map_err(|e| e.to_string())?;
     std::fs::write(&probe, "{\"probe\":\"seam\"}").map_err(|e| e.to_string())?;
     let out = Command::new("cargo")
-        .args(["+nightly", "miri", "run", "--offline", "-q", "-p", "c08-worker", "--target-dir"])
+        .arg(std::env::var("VERIF_NIGHTLY").unwrap_or_else(|_| "+nightly".into()))
+        .args(["miri", "run", "--offline", "-q", "-p", "c08-worker", "--target-dir"])
         .arg(target)
         .arg("--")
         .arg(&probe)
@@ -89,7 +90,9 @@ pub fn available(sim_dir: &Path, target: &Path) -> Result<(), String> {
         Ok(())
     } else {
         let se = String::from_utf8_lossy(&out.stderr);
-        Err(format!("cargo +nightly miri run failed: {}", se.lines().rev().take(6).collect::<Vec<_>>().into_iter().rev().collect::<Vec<_>>().join(" / ")))
+        let first_errors: Vec<&str> = se.lines().filter(|l| l.contains("error")).take(3).collect();
+        let gist = if first_errors.is_empty() { se.lines().take(3).collect::<Vec<_>>().join(" / ") } else { first_errors.join(" / ") };
+        Err(format!("cargo +nightly miri run failed: {}", gist))
     }
 }
 
@@ -113,7 +116,8 @@ pub fn run(sc_threads: &[Vec<Value>], miri_seed: u64, rate: &str, sim_dir: &Path
         return MiriRun { json: None, error: Some(format!("harness: cannot write plan: {}", e)) };
     }
     let out = Command::new("cargo")
-        .args(["+nightly", "miri", "run", "--offline", "-q", "-p", "c08-worker", "--target-dir"])
+        .arg(std::env::var("VERIF_NIGHTLY").unwrap_or_else(|_| "+nightly".into()))
+        .args(["miri", "run", "--offline", "-q", "-p", "c08-worker", "--target-dir"])
         .arg(target)
         .arg("--")
         .arg(plan_file)
